@@ -182,7 +182,7 @@ def run(ctx):
         ctx.sample({'edge': edges[len(edges) // 3]})
         for pname, s in phis:
             w = Walker(ctx, g, DDAdapter(n, s, ctx.seed), 'replay.%s.N%d.%s' % (fam, n, pname))
-            ne = w.cover_edges()
+            ne = w.cover_edges(stutter=True)
             npaths, complete = w.all_paths(3 if (thorough and pname == 'x1') else 2, budget=600000)
             nr = w.random_walks(3000 if thorough else 400, 10, ctx.seed)
             ctx.stage('replay.%s' % fam, concretisation=pname, values=s, graph_states=len(g.state), graph_edges=g.n_edges,
